@@ -18,6 +18,7 @@ CLAUSE_TEXT = {
     "AdvertisedResolves": "an advertised plugin/group name does not resolve (error, duplicates, or resolves to unregistered plugins)",
     "OwnNameReturnsPlugin": "resolving a plugin's own name does not return exactly that plugin",
     "GroupExact": "a group name does not resolve to exactly the members of the exported collection(s) it denotes",
+    "RequiredEnabledTogether": "with several detectors configured together, one EnableRequiredExtractors call does not enable every extractor they require (each once)",
     "RequiredEnabled": "an extractor a detector declares as required does not resolve or is not enabled by EnableRequiredExtractors",
     "RequiredAdmissible": "an environment admits a detector but not an extractor it requires: a scan configured from the filtered set fails validation after auto-enabling",
     "FilteredValidates": "a ScanConfig built from the capability-filtered sets fails ValidatePluginRequirements",
